@@ -7,9 +7,9 @@ package main
 
 import (
 	"fmt"
-	"os"
 	"go/token"
 	"go/types"
+	"os"
 	"sort"
 	"strings"
 
@@ -17,20 +17,20 @@ import (
 )
 
 type Obligation struct {
-	Name    string // stable name: <function>/<kind>:<detail>#<n>
-	Func    string
-	Kind    string // requires | ensures | invariant-entry | invariant-preserved | index | slice | nil | div | assert-type | close | send | unwind | frame | lock | ...
-	Detail  string
-	Pos     token.Position
-	PC      *Term
-	Goal    *Term
-	NAssume int // number of assumptions in force
-	Clause  string
-	Probes  []Probe
-	Props   []string // properties this obligation serves
-	Lambda  bool
+	Name       string // stable name: <function>/<kind>:<detail>#<n>
+	Func       string
+	Kind       string // requires | ensures | invariant-entry | invariant-preserved | index | slice | nil | div | assert-type | close | send | unwind | frame | lock | ...
+	Detail     string
+	Pos        token.Position
+	PC         *Term
+	Goal       *Term
+	NAssume    int // number of assumptions in force
+	Clause     string
+	Probes     []Probe
+	Props      []string // properties this obligation serves
+	Lambda     bool
 	NAssumePre int // covers: assumptions in force before the step (-1: none)
-	PreRes  SolveResult
+	PreRes     SolveResult
 
 	// result
 	Res SolveResult
@@ -42,39 +42,40 @@ type Probe struct {
 }
 
 type Exec struct {
-	prog      *ssa.Program
-	fset      *token.FileSet
-	assumes   []*Term
-	obls      []*Obligation
-	dry       int
-	sweep     int
-	sweepFn   *ssa.Function
-	notes     map[string]int
-	root      *ssa.Function
-	rootName  string
-	cellN     int
-	globals   map[*ssa.Global]*Cell
-	typeIDs   map[string]int
-	typeByID  map[int]types.Type
-	depth     int
-	maxInline int
-	oblCount  map[string]int
-	ctx       *VerifCtx // contracts etc.
-	frameN    int
-	probes    []Probe
-	unrollMax int
-	curProps  []string
-	strIDs    map[string]int
-	stack     []*ssa.Function
+	prog         *ssa.Program
+	fset         *token.FileSet
+	assumes      []*Term
+	obls         []*Obligation
+	dry          int
+	sweep        int
+	sweepFn      *ssa.Function
+	missingDone  map[*ssa.Function]bool
+	notes        map[string]int
+	root         *ssa.Function
+	rootName     string
+	cellN        int
+	globals      map[*ssa.Global]*Cell
+	typeIDs      map[string]int
+	typeByID     map[int]types.Type
+	depth        int
+	maxInline    int
+	oblCount     map[string]int
+	ctx          *VerifCtx // contracts etc.
+	frameN       int
+	probes       []Probe
+	unrollMax    int
+	curProps     []string
+	strIDs       map[string]int
+	stack        []*ssa.Function
 	atomicAccess bool
-	quantUsed []quantUse
-	clauseProps []string
-	inSpec    int
-	pendingPtrs []*Term
-	oblSeen   map[string]bool
-	inInit    bool
-	noAlloc   int
-	covers    []*Obligation
+	quantUsed    []quantUse
+	clauseProps  []string
+	inSpec       int
+	pendingPtrs  []*Term
+	oblSeen      map[string]bool
+	inInit       bool
+	noAlloc      int
+	covers       []*Obligation
 }
 
 func NewExec(ctx *VerifCtx) *Exec {
@@ -219,28 +220,28 @@ type retEntry struct {
 }
 
 type Frame struct {
-	ex     *Exec
-	fn     *ssa.Function
-	id     int
-	regs   map[ssa.Value]Value
-	defers []deferEntry
-	rets   []retEntry
-	cells  map[*ssa.Alloc]*Cell
-	loops  map[*ssa.BasicBlock]*loopInfo
-	rpo    []*ssa.BasicBlock
-	rpoIdx map[*ssa.BasicBlock]int
-	inc    map[*ssa.BasicBlock][]edge
-	isRoot bool
-	st     *State // state at the current instruction (for plain channel operations)
+	ex         *Exec
+	fn         *ssa.Function
+	id         int
+	regs       map[ssa.Value]Value
+	defers     []deferEntry
+	rets       []retEntry
+	cells      map[*ssa.Alloc]*Cell
+	loops      map[*ssa.BasicBlock]*loopInfo
+	rpo        []*ssa.BasicBlock
+	rpoIdx     map[*ssa.BasicBlock]int
+	inc        map[*ssa.BasicBlock][]edge
+	isRoot     bool
+	st         *State // state at the current instruction (for plain channel operations)
 	ifConcrete map[*ssa.BasicBlock]bool
 	// ghost: names of parameters/results for spec evaluation
-	paramVals []Value
-	entry     *State
-	bind      []Value
-	edgeCond  map[[2]*ssa.BasicBlock]*Term
-	allocObjs map[*ssa.Alloc]types.Object
+	paramVals  []Value
+	entry      *State
+	bind       []Value
+	edgeCond   map[[2]*ssa.BasicBlock]*Term
+	allocObjs  map[*ssa.Alloc]types.Object
 	pointBlock map[int]*ssa.BasicBlock
-	curSite   *ssa.Call
+	curSite    *ssa.Call
 }
 
 type edge struct {
@@ -713,6 +714,19 @@ func (fr *Frame) execBlock(b *ssa.BasicBlock, pc *Term, st *State, addEdge func(
 		// wherever the function is inlined
 		points = ex.ctx.pointSpecs(ic)
 	}
+	if b.Index == 0 && !ex.missingDone[fr.fn] {
+		if ex.missingDone == nil {
+			ex.missingDone = map[*ssa.Function]bool{}
+		}
+		ex.missingDone[fr.fn] = true
+		for _, ps := range points {
+			if ps.Missing != "" {
+				ex.clauseProps = ps.Props
+				ex.oblige("assert", fmt.Sprintf("at.%d", ps.Index), fr.fn.Pos(), pc, False, "at \""+ps.Pattern+"\" assert "+ps.Text+" -- "+ps.Missing)
+				ex.clauseProps = nil
+			}
+		}
+	}
 	firedHere := map[int]bool{}
 	for _, ins := range b.Instrs {
 		if len(points) > 0 {
@@ -734,6 +748,8 @@ func (fr *Frame) execBlock(b *ssa.BasicBlock, pc *Term, st *State, addEdge func(
 							g := ex.proveSpec(ps.Expr, ps.Info, env, pc)
 							ex.oblige("assert", fmt.Sprintf("at.%d", ps.Index), p, pc, g, "at \""+ps.Pattern+"\" assert "+ps.Text)
 							ex.clauseProps = nil
+							// an asserted fact may be used from here on (it is proved separately)
+							ex.assume(pc, ex.assumeSpec(ps.Expr, ps.Info, env, pc))
 						}
 					}
 				}
